@@ -8,6 +8,7 @@ from enum import Enum
 from typing import Optional, cast, Dict
 from ..util import vsprintf, get_keys
 import re
+import copy
 
 
 KNOWN_PROPERTIES = {
@@ -374,11 +375,15 @@ class UnaryStringOperation(Node):
                                op_type,
                                operation)
         
+        operand_js: str = operand.generate_js(indentation, factory_method)
         if operand.name == 'menus':
-            operand.name = '_menuBar.menu'
+            # Rename in the generated text only: the tree is shared with the
+            # Lingo generator
+            renamed: Node = copy.copy(operand)
+            renamed.name = '_menuBar.menu'
+            operand_js = renamed.generate_js(indentation, factory_method)
         
-        return vsprintf("%s.%s",
-                operand.generate_js(indentation, factory_method), operation)
+        return vsprintf("%s.%s", operand_js, operation)
 #
 # Property accessor operation class.
 # 
